@@ -1,10 +1,17 @@
 import Mqtt
 
+/-- Same rule as `clip` in harness/src/main.rs: very long result lines are printed as a 2,000-character
+prefix plus length and FNV-1a hash. -/
+def clip (s : String) : String :=
+  if s.utf8ByteSize ≤ 100000 then s else
+    let h : UInt64 := s.toUTF8.foldl (fun h b => (h ^^^ b.toUInt64) * 0x100000001b3) 0xcbf29ce484222325
+    s!"{(s.take 2000).toString} ...clipped len={s.utf8ByteSize} fnv={h}"
+
 partial def loop (debug : Bool) (h : IO.FS.Stream) (out : IO.FS.Stream) : IO Unit := do
   let line ← h.getLine
   if line.isEmpty then return ()
   if line.trimAscii.toString.isEmpty then loop debug h out else
-  out.putStrLn (Mqtt.Driver.step debug line)
+  out.putStrLn (clip (Mqtt.Driver.step debug line))
   loop debug h out
 
 /-- `mqttmodel [--debug]`: `--debug` = model the build with debug assertions on. -/
